@@ -250,18 +250,32 @@ def owner_invariant : Prop :=
   ∀ (c : Cfg) (base : List Entry) (pkgs : List Pkg) (st : St) (all : List (List Entry)),
     c.spec = false → (∀ p ∈ pkgs, ∀ e ∈ p.entries, WF e) → installAll c base pkgs = .ok (st, all) → OwnerInv st
 
+/-- **owner_invariant_flags** (which ghost flags can break the invariant): a successful Impl run that
+raised only flags of the classes F07b (`emptyOrigin`), F07h (`versioned`) and F07i (`baseKept`) still ends
+in a state where every name `installedFiles` knows is a regular file in the tree with the recorded
+owner's content: a decision that differs from the rule table writes tree and map together, a kept base
+file writes neither.  The three remaining classes are exactly the holes: `owner_invariant_fails` (F07c,
+`linkUntracked`), `owner_invariant_fails_throughLink` (F07d), `owner_invariant_fails_alias` (F07g) are
+runs whose only flag is that one and on which the invariant is false. -/
+theorem owner_invariant_flags (c : Cfg) (hc : c.spec = false) (base : List Entry) (pkgs : List Pkg)
+    (st : St) (all : List (List Entry)) (hwf : ∀ p ∈ pkgs, ∀ e ∈ p.entries, WF e)
+    (h : installAll c base pkgs = .ok (st, all)) (hfl : Benign st.flags) : OwnerInv st := by
+  unfold installAll at h
+  obtain ⟨x, hx, hI⟩ := installFrom_inv c hc pkgs pkgs 0 _ _ st all h hwf
+  have hx0 : Benign x := by
+    have : st.flags = x := by simpa using hx
+    exact this ▸ hfl
+  refine hI hx0 ?_
+  intro name j hl
+  simp at hl
+
 /-- **owner_invariant_partial**: for every backend, every base tree and every ordered package list
 with clean header names, a successful Impl run that raised no ghost flag ends in a state where every
 name `installedFiles` knows is a regular file in the tree whose content is the recorded owner's. -/
 theorem owner_invariant_partial (c : Cfg) (hc : c.spec = false) (base : List Entry) (pkgs : List Pkg)
     (st : St) (all : List (List Entry)) (hwf : ∀ p ∈ pkgs, ∀ e ∈ p.entries, WF e)
-    (h : installAll c base pkgs = .ok (st, all)) (hfl : st.flags = []) : OwnerInv st := by
-  unfold installAll at h
-  obtain ⟨x, hx, hI⟩ := installFrom_inv c hc pkgs pkgs 0 _ _ st all h hwf
-  have hx0 : x = [] := by simpa [hfl] using hx.symm
-  refine hI hx0 ?_
-  intro name j hl
-  simp at hl
+    (h : installAll c base pkgs = .ok (st, all)) (hfl : st.flags = []) : OwnerInv st :=
+  owner_invariant_flags c hc base pkgs st all hwf h (hfl ▸ Benign_nil)
 
 /-- **no_silent_overwrite** (partial): one header of a flag-free Impl step changes what is stored at
 a path only at the header's own path, and only by creating the entry or through a logged decision:
@@ -272,7 +286,7 @@ theorem no_silent_overwrite_partial (c : Cfg) (hc : c.spec = false) (pkgs : List
     (hne : q ≠ parts e.name) : lookupT st'.tree q = some n := by
   obtain ⟨x, hx, hs⟩ := stepEntry_shape c hc pkgs i e st st' b h hwf
   have hx0 : x = [] := append_eq_self _ _ (hfl ▸ hx).symm
-  cases hs hx0 with
+  cases hs (hx0 ▸ Benign_nil) with
   | same ht _ => rw [ht]; exact hq
   | grow _ ht => exact ht q n hq
   | wrote _ _ t0 h0 ht => rw [ht, lookupT_setT_ne _ _ _ _ hne, h0 q hne]; exact hq
@@ -330,6 +344,95 @@ theorem owner_invariant_fails : ¬ owner_invariant := by
     rw [this] at hf
     rw [hf] at hb
     exact absurd hb.2 (by simp)
+
+/-! ### the other two holes of the owner invariant: F07d (`throughLink`) and F07g (`alias`) -/
+
+/-- a decidable consequence of `OwnerInv` (over the finitely many names `installedFiles` holds) -/
+def ownerInvB (st : St) : Bool :=
+  st.inst.all fun (name, _) =>
+    match st.inst.lookup name with
+    | none => true
+    | some j =>
+      match lookupT st.tree (parts name) with
+      | some (.file _ _ (some k) _) => k == j
+      | _ => false
+
+theorem ownerInvB_of_OwnerInv (st : St) (h : OwnerInv st) : ownerInvB st = true := by
+  unfold ownerInvB
+  rw [List.all_eq_true]
+  rintro ⟨name, k⟩ _
+  show (match st.inst.lookup name with
+    | none => true
+    | some j => match lookupT st.tree (parts name) with
+      | some (.file _ _ (some k) _) => k == j
+      | _ => false) = true
+  cases hl : st.inst.lookup name with
+  | none => rfl
+  | some j =>
+    obtain ⟨_, s, p, em, hf⟩ := h name j hl
+    simp [hf]
+
+/-- the run succeeds, raises exactly the flags `fl`, and the owner invariant is false at its end -/
+def failsWith (r : Except (Outcome × List Flag) (St × List (List Entry))) (fl : List Flag) : Bool :=
+  match r with
+  | .ok (st, _) => decide (st.flags = fl) && !ownerInvB st
+  | .error _ => false
+
+theorem failsWith_spec {r : Except (Outcome × List Flag) (St × List (List Entry))} {fl : List Flag}
+    (h : failsWith r fl = true) : ∃ st all, r = .ok (st, all) ∧ st.flags = fl ∧ ¬ OwnerInv st := by
+  cases r with
+  | error x => cases h
+  | ok v =>
+    obtain ⟨st, all⟩ := v
+    simp only [failsWith, Bool.and_eq_true, decide_eq_true_eq, Bool.not_eq_true'] at h
+    exact ⟨st, all, rfl, h.1, fun hI => by rw [ownerInvB_of_OwnerInv st hI] at h; exact absurd h.2 (by simp)⟩
+
+/-- F07d: a dangling symlink `s/f -> g` of package `a`, then a regular file `s/f` of package `b` -/
+def witnessD : List Pkg :=
+  [{ name := ['a'], origin := ['o'], entries := [{ name := ['s', '/'], kind := .dir, mode := 0o755 }, { name := ['s', '/', 'f'], kind := .link, sum := ['9'], target := ['g'] }] },
+   { name := ['b'], origin := ['o'], entries := [{ name := ['s', '/'], kind := .dir, mode := 0o755 }, { name := ['s', '/', 'f'], kind := .reg, sum := ['2'] }] }]
+
+/-- F07d: on memfs the body is written through the dangling link: the run succeeds, its only flag is
+`throughLink s/f s/g`, the file is at `s/g`, the link stays at `s/f`, `installedFiles` says `s/f ↦ b` -/
+theorem owner_invariant_fails_throughLink :
+    ∃ st all, installAll { backend := .memfs } [] witnessD = .ok (st, all) ∧
+      st.flags = [.throughLink ['s', '/', 'f'] ['s', '/', 'g']] ∧ ¬ OwnerInv st :=
+  failsWith_spec (by decide)
+
+/-- …and DirFS refuses the same input (`O_EXCL` on the disk sees the link) and tarfs replaces the link: the
+hole is memfs only -/
+theorem throughLink_memfs_only :
+    (match installAll { backend := .dirfs } [] witnessD with | .error (.error, []) => true | _ => false) = true ∧
+    (match installAll { backend := .lazy } [] witnessD with
+     | .ok (st, _) => decide (st.flags = []) && ownerInvB st | _ => false) = true := by decide
+
+/-- F07g: `a` ships `usr/lib/x` and the directory symlink `l64 -> usr/lib`, `b` (same origin) ships `l64/x` -/
+def witnessG : List Pkg :=
+  [{ name := ['a'], origin := ['o'], entries :=
+      [{ name := "usr/".toList, kind := .dir, mode := 0o755 }, { name := "usr/lib/".toList, kind := .dir, mode := 0o755 },
+       { name := "usr/lib/x".toList, kind := .reg, sum := ['1'] },
+       { name := "l64".toList, kind := .link, sum := ['9'], target := "usr/lib".toList }] },
+   { name := ['b'], origin := ['o'], entries :=
+      [{ name := "l64/".toList, kind := .dir, mode := 0o755 }, { name := "l64/x".toList, kind := .reg, sum := ['2'] }] }]
+
+/-- F07g: tarfs applies the rules to the node `usr/lib/x` (overwritten by `b`), `installedFiles` is keyed by
+the header names: `usr/lib/x ↦ a` stays although `a`'s content is gone; the only flag is `alias l64/x` -/
+theorem owner_invariant_fails_alias :
+    ∃ st all, installAll { backend := .lazy } [] witnessG = .ok (st, all) ∧
+      st.flags = [.alias "l64/x".toList] ∧ ¬ OwnerInv st :=
+  failsWith_spec (by decide)
+
+/-- F07c restated in the same form: the only flag of the run is `linkUntracked s/f` -/
+theorem owner_invariant_fails_linkUntracked :
+    ∃ st all, installAll { backend := .lazy } [] witnessC = .ok (st, all) ∧
+      st.flags = [.linkUntracked ['s', '/', 'f']] ∧ ¬ OwnerInv st :=
+  failsWith_spec (by decide)
+
+/-- no benign flag is one of the three hole classes, and every flag is benign or one of them: the
+classification of `owner_invariant_flags` is a partition of the flag type -/
+theorem benign_or_hole (f : Flag) :
+    Flag.benign f = true ∨ (∃ n, f = .linkUntracked n) ∨ (∃ n d, f = .throughLink n d) ∨ (∃ n, f = .alias n) := by
+  cases f <;> simp [Flag.benign]
 
 /-! ## ties: the statement lists the model mirrors (regenerated from /repo on every run) -/
 
